@@ -199,6 +199,17 @@ def case_xchrom(col, p):
                     if not float(np.abs(lhs - rhs).max()) <= 1e-11 * sc:
                         col.violation('C03:superposition:one_pop_X', dict(info, unit=j, a=a, b=b, th1=t1, th2=t2), {'maxerr': float(np.abs(lhs - rhs).max())})
                         break
+            # the X-chromosome equilibrium density under the same re-expression
+            from dadi import PhiManip as PMx
+            eq0 = np.asarray(PMx.phi_1D_X(xx, nu=1.5, theta0=0.7, gamma=gamma, h=h, beta=beta, alpha=alpha))
+            for c in BIN_C + DEC_C:
+                eqc = np.asarray(PMx.phi_1D_X(xx, nu=1.5 * c, theta0=0.7 / c, gamma=gamma / c, h=h, beta=beta, alpha=alpha))
+                col.tick(transitions=1)
+                n += 1
+                if np.isfinite(eq0).all():
+                    e_eq = float(np.abs(eqc - eq0).max()) / max(float(np.abs(eq0).max()), 1e-300)
+                    if not e_eq <= (1e-12 if c in BIN_C else 1e-9):
+                        col.violation('C03:rescale:phi_1D_X', dict(info, c=c), {'relerr': e_eq})
             for c in BIN_C + DEC_C:
                 got = run(dense, 0.7, c)
                 col.tick(transitions=1)
@@ -402,6 +413,19 @@ def run(ctx):
                     sizes = [['exp', 1.0, 1.0]] + sizes[1:]
                 op = ['int', T_long, sizes, [], [0.0] * d, [0.5] * d, [0] * d]
                 cases.append({'kind': 'superpose', 'd': d, 'G': G, 'grid': 'D', 'seed': seed, 'op': op, 'nomut': None, 'units': (0, min(G ** d, 6)), 'tiny': True, 'tf': 0.05})
+    # an epoch of zero length (a fresh copy of the density comes back, never the caller's own array) and epochs of 8e-9 time units with a small
+    # population (short, not empty: under another reference size the same epoch is 5e-10 ... 1.6e-7 long)
+    for d in range(1, 6):
+        G = Gd[d]
+        one = [0.01, 0.02, 0.05, 0.03, 0.04][:d]
+        cases.append({'kind': 'superpose', 'd': d, 'G': G, 'grid': 'D', 'seed': seed, 'op': ['int', 0.0, [1.0] * d, [], [0.0] * d, [0.5] * d, [0] * d],
+                      'nomut': None, 'units': (0, min(G ** d, 4))})
+    tiny_progs = []
+    for d in (1, 2, 3):
+        pr = [['init', 1.0, 0.0, 0.5]] + [['split', 0]] * (d - 1)
+        tiny_progs.append(pr + [['int', 8e-9, [0.01, 0.02, 0.05][:d], [], [0.0] * d, [0.5] * d, [0] * d]])
+        tiny_progs.append(pr + [['int', 8e-9, [['exp', 0.01, 0.02]] + [0.02, 0.05][:d - 1], [], [0.0] * d, [0.5] * d, [0] * d]])
+    cases.append({'kind': 'rescale', 'G': 8, 'grid': 'E', 'seed': seed, 'theta0': 1.7, 'programs': tiny_progs})
     from mc.evidence import Collector
     a, b = Collector(), Collector()
     _dispatch(a, cases[0]); _dispatch(b, cases[0])
